@@ -309,7 +309,7 @@ def replay(doc):
 
 
 def jobs(tier, seed):
-    n, shards = (4000, 8) if tier == "quick" else (60000, 16)
+    n, shards = (4000, 8) if tier == "quick" else (180000, 16)
     out = []
     for k in range(shards):
         job = {"name": "irs-%d" % k, "kind": "irs", "n": n // shards, "seed": seed * 1000 + k,
